@@ -164,6 +164,7 @@ class D(Driver):
             "stroke-opacity": rng.choice((1.0, 1.0, 0.5, 0.0)),
             "fill-rule": rng.choice(("nonzero", "evenodd")),
             "display": rng.choice(("inline", "inline", "inline", "none")),
+            "stroke-linecap": rng.choice(("butt", "round", "square")),
         }
         # drop defaults at random so that defaults are exercised too
         for k in list(p):
@@ -186,7 +187,7 @@ class D(Driver):
                 style.append(f"{k}:{sv}")
             else:  # both, conflicting: style must win
                 other = {"fill": "none" if v != "none" else "red", "stroke": "none" if v != "none" else "black", "display": "inline" if v == "none" else "none",
-                         "fill-rule": "nonzero" if v == "evenodd" else "evenodd"}.get(k)
+                         "fill-rule": "nonzero" if v == "evenodd" else "evenodd", "stroke-linecap": "butt" if v != "butt" else "round"}.get(k)
                 if other is None:
                     other = 0.0 if v else 1.0
                 kw[k.replace("-", "_")] = other
